@@ -1,5 +1,143 @@
-"""TLC on spec/Conc.tla (placeholder until the module lands)."""
+"""TLC on spec/Conc.tla: linearizability and lock-protocol race freedom of small thread programs
+at the design level, and enumeration of every complete schedule for replay on real threads."""
+import json
+import os
+import re
+import shutil
+import subprocess
+import time
+from concurrent.futures import ThreadPoolExecutor
+
+from vlib import JAVA_CP, SPEC, sh, log
+
+_ST = re.compile(r"(\d+) states generated, (\d+) distinct states found")
+
+
+def write_cfg(path, kind, threads, calls, cap, pinned, emit, invs):
+    with open(path, "w") as f:
+        f.write("SPECIFICATION CSpec\nCONSTANTS\n  Keys = {1,2}\n  Strict = {}\n  CKind = \"%s\"\n" % kind)
+        f.write("  Threads = {%s}\n  CallsPer = %d\n  CCap = %d\n" % (",".join(str(i) for i in range(1, threads + 1)), calls, cap))
+        f.write("  Pinned = %s\n  Emit = %s\n" % ("TRUE" if pinned else "FALSE", "TRUE" if emit else "FALSE"))
+        f.write("INVARIANTS %s\nACTION_CONSTRAINT EmitDone\nCHECK_DEADLOCK FALSE\n" % " ".join(invs))
+
+
+def plan(tier):
+    runs = []
+    for kind in ("lru", "fifo", "tlru", "utlru", "utmap"):
+        cap = 0 if kind == "utmap" else 1
+        runs.append(dict(kind=kind, threads=2, calls=1, cap=cap, pinned=False, emit=True, invs=["NoRace", "Linearizable"]))
+    runs.append(dict(kind="lru", threads=3, calls=1, cap=2, pinned=False, emit=True, invs=["NoRace", "Linearizable"]))
+    runs.append(dict(kind="utlru", threads=3, calls=1, cap=2, pinned=False, emit=(tier == "thorough"),
+                     invs=["NoRace", "Linearizable"]))
+    # regression evidence: the pre-repair protocol must still produce its counterexamples
+    runs.append(dict(kind="utlru", threads=2, calls=1, cap=2, pinned=True, emit=False, invs=["NoRace"], expect=True))
+    runs.append(dict(kind="tlru", threads=2, calls=1, cap=2, pinned=True, emit=False, invs=["Linearizable"], expect=True))
+    if tier == "thorough":
+        runs.append(dict(kind="lru", threads=2, calls=2, cap=1, pinned=False, emit=False, invs=["NoRace", "Linearizable"],
+                         timeout=2400))
+        runs.append(dict(kind="utlru", threads=2, calls=2, cap=1, pinned=False, emit=False,
+                         invs=["NoRace", "Linearizable"], timeout=2400))
+        runs.append(dict(kind="utlru", threads=2, calls=2, cap=2, pinned=True, emit=False, invs=["Linearizable"],
+                         expect=True, timeout=2400))
+    return runs
+
+
 def run(tier, wd):
-    return dict(states=0, transitions=0, runs=[])
-def model_cases(mc, rng):
-    return []
+    os.makedirs(wd, exist_ok=True)
+    res = dict(states=0, transitions=0, runs=[], schedules=[])
+
+    def one(i_r):
+        i, r = i_r
+        cfgp = os.path.join(wd, "c%d.cfg" % i)
+        write_cfg(cfgp, r["kind"], r["threads"], r["calls"], r["cap"], r["pinned"], r["emit"], r["invs"])
+        md = os.path.join(wd, "c%d.md" % i)
+        outp = os.path.join(wd, "c%d.out" % i)
+        cmd = ["java", "-Xmx8g", "-XX:+UseParallelGC", "-cp", JAVA_CP, "tlc2.TLC", "-workers", "4", "-metadir", md,
+               "-config", cfgp, os.path.join(SPEC, "Conc.tla")]
+        t0 = time.time()
+        try:
+            with open(outp, "w") as fo:
+                p = subprocess.run(cmd, stdout=fo, stderr=subprocess.STDOUT, timeout=r.get("timeout", 300), cwd=SPEC)
+            rc = p.returncode
+        except subprocess.TimeoutExpired:
+            rc = 124
+        shutil.rmtree(md, ignore_errors=True)
+        scheds = []
+        text = []
+        with open(outp, errors="replace") as f:
+            for ln in f:
+                if ln.startswith('<<"SCHED", '):
+                    try:
+                        scheds.append(json.loads(json.loads(ln.rstrip()[len('<<"SCHED", '):-2])))
+                    except ValueError:
+                        pass
+                else:
+                    text.append(ln)
+        os.remove(outp)
+        text = "".join(text)
+        return i, r, rc, text, scheds, time.time() - t0
+
+    with ThreadPoolExecutor(max_workers=4) as ex:
+        outs = list(ex.map(one, enumerate(plan(tier))))
+    for i, r, rc, text, scheds, wall in outs:
+        m = _ST.search(text)
+        run_ = dict(kind=r["kind"], threads=r["threads"], calls_per_thread=r["calls"], cap=r["cap"], pinned=r["pinned"],
+                    invariants=r["invs"], wall_s=round(wall, 1), rc=rc, schedules=len(scheds))
+        if m:
+            run_["transitions"], run_["states"] = int(m.group(1)), int(m.group(2))
+        violated = "is violated" in text
+        complete = "No error has been found" in text
+        run_["violated"] = violated
+        run_["complete"] = complete
+        res["runs"].append(run_)
+        if r.get("expect"):
+            if not violated:
+                res["infra"] = "Conc.tla with Pinned=TRUE (%s) no longer yields its counterexample:\n%s" % (r["kind"], text[-1500:])
+            continue
+        if violated:
+            res["infra"] = "Conc.tla (%s, repaired protocol) violates %s:\n%s" % (r["kind"], r["invs"], text[-2500:])
+        elif not complete and rc != 124:
+            res["infra"] = "TLC failed on Conc.tla (%s):\n%s" % (r["kind"], text[-2500:])
+        if m:
+            res["states"] += run_["states"]
+            res["transitions"] += run_["transitions"]
+        for s in scheds:
+            res["schedules"].append((r, s))
+    return res
+
+
+def _call_line(c, kind):
+    op = c["op"]
+    if op == "ins":
+        return "ins %d %d %d %d" % (c["k"], c["v"], c["a"], c["d"])
+    if op == "era":
+        return "era %d" % c["k"]
+    if op == "find":
+        return "find %d 0" % c["k"]
+    if op == "insr":
+        return "insr 3 0 %d %s" % (len(c["ks"]), " ".join("%d %d %d" % (k, c["v"], c["d"]) for k in c["ks"]))
+    if op == "findr":
+        return "findr 0 0 %d %s" % (len(c["ks"]), " ".join(str(k) for k in c["ks"]))
+    if op == "uttl":
+        return "uttl %d" % c["d"]
+    return op
+
+
+def model_cases(mc, rng, limit=6000):
+    """(program, schedule) pairs for harness/conc.cpp from the complete behaviours TLC printed."""
+    cases = []
+    scheds = mc.get("schedules", [])
+    if len(scheds) > limit:
+        scheds = rng.sample(scheds, limit)
+    for r, s in scheds:
+        kind = r["kind"]
+        prog = s["prog"]
+        thr = [[_call_line(c, kind) for c in calls] for calls in prog]
+        steps = []
+        for h in s["hist"]:
+            steps.append(("I%d" if h[0] == "inv" else "C%d") % (h[1] - 1))
+        cfg = dict(kind=kind, cap=r["cap"], ts=1, mlf=100, ttl=5 if kind in ("utlru", "utmap", "utset") else 0, tick=2,
+                   rnum=1, rsh=1, fl=0, keys=2)
+        post = ["tick 1", "obs", "tick 1", "obs", "tick 3", "obs"] if kind in ("tlru", "utlru", "utmap") else []
+        cases.append((dict(cfg=cfg, pre=[], thr=thr, post=post), " ".join(steps)))
+    return cases
